@@ -303,6 +303,182 @@ class SchedCondition:
     def notify_all(self):
         self.notify(n=len(self.waiters) or 1)
 
+    def wait_for(self, predicate, timeout=None):
+        result = predicate()
+        while not result:
+            self.wait()
+            result = predicate()
+        return result
+
+
+class SchedLock:
+    """Drop-in for threading.Lock / RLock / multiprocessing.Lock created by the store while the scheduler owns its
+    primitives. Shares its SchedMutex with every condition built on it."""
+
+    def __init__(self, sched_ref, mutex, reentrant=False):
+        self._sched_ref = sched_ref
+        self.mutex = mutex
+        self.name = mutex.name
+        self.reentrant = reentrant
+        self.depth = 0
+
+    def _me(self):
+        s = self._sched_ref()
+        return (s, s._me().idx) if (s is not None and s._me() is not None) else (None, "harness")
+
+    def acquire(self, blocking=True, timeout=-1):
+        s, me = self._me()
+        if self.reentrant and self.mutex.owner == me:
+            self.depth += 1
+            return True
+        if s is None:
+            if self.mutex.owner is not None and not blocking:
+                return False
+            self.mutex.owner = me
+            self.depth = 1
+            return True
+        s.yield_point(f"acquire:{self.mutex.name}")
+        if not blocking and self.mutex.owner is not None:
+            return False
+        s.block_until(f"mutex:{self.mutex.name}", lambda: self.mutex.owner is None)
+        self.mutex.owner = me
+        self.depth = 1
+        return True
+
+    def release(self):
+        if self.reentrant and self.depth > 1:
+            self.depth -= 1
+            return
+        self.depth = 0
+        self.mutex.owner = None
+
+    def locked(self):
+        return self.mutex.owner is not None
+
+    __enter__ = acquire
+
+    def __exit__(self, *a):
+        self.release()
+        return False
+
+
+class _ModProxy:
+    """Stands in for the `threading` / `multiprocessing` module INSIDE the module under test only, so that every
+    primitive the store creates is scheduler-owned while nothing else in the process is affected."""
+
+    def __init__(self, real, overrides):
+        self.__dict__["_real"] = real
+        self.__dict__["_over"] = overrides
+
+    def __getattr__(self, name):
+        over = self.__dict__["_over"]
+        if name in over:
+            return over[name]
+        return getattr(self.__dict__["_real"], name)
+
+
+class _LocalManagerForSched:
+    def list(self, *a):
+        return list(*a)
+
+    def dict(self, *a, **k):
+        return dict(*a, **k)
+
+
+class owned_primitives:
+    """Context manager around the construction of a store: Lock / RLock / Condition (threading and multiprocessing)
+    and multiprocessing.Manager created by filehashstore.py become scheduler-owned objects."""
+
+    def __init__(self, fhs_module, sched_ref):
+        self.fhs = fhs_module
+        self.sched_ref = sched_ref
+        self.created = []
+        self.n = 0
+
+    def _mutex(self, kind):
+        self.n += 1
+        return SchedMutex(f"{kind}#{self.n}")
+
+    def _lock(self, suffix, reentrant=False):
+        def make(*a, **k):
+            lk = SchedLock(self.sched_ref, self._mutex("lock" + suffix), reentrant=reentrant)
+            self.created.append(lk)
+            return lk
+        return make
+
+    def _cond(self, suffix):
+        def make(lock=None):
+            if isinstance(lock, SchedLock):
+                mutex = lock.mutex
+            else:
+                mutex = self._mutex("lock" + suffix)
+            c = SchedCondition(self.sched_ref, "condition" + suffix, mutex)
+            self.created.append(c)
+            return c
+        return make
+
+    def __enter__(self):
+        import multiprocessing
+        self.saved = (getattr(self.fhs, "threading", None), getattr(self.fhs, "multiprocessing", None))
+        if self.saved[0] is not None:
+            self.fhs.threading = _ModProxy(threading, {"Lock": self._lock("_th"), "RLock": self._lock("_th", True),
+                                                       "Condition": self._cond("_th")})
+        if self.saved[1] is not None:
+            self.fhs.multiprocessing = _ModProxy(multiprocessing, {
+                "Lock": self._lock("_mp"), "RLock": self._lock("_mp", True), "Condition": self._cond("_mp"),
+                "Manager": _LocalManagerForSched})
+        return self
+
+    def __exit__(self, *a):
+        if self.saved[0] is not None:
+            self.fhs.threading = self.saved[0]
+        if self.saved[1] is not None:
+            self.fhs.multiprocessing = self.saved[1]
+        return False
+
+
+def adopt_store(store, owner):
+    """After construction under owned_primitives: name the scheduler-owned objects after the attributes that hold
+    them. Returns {attribute name: SchedCondition}."""
+    conds = {}
+    for attr, val in vars(store).items():
+        if isinstance(val, SchedLock):
+            val.mutex.name = attr
+            val.name = attr
+    for attr, val in vars(store).items():
+        if isinstance(val, SchedCondition):
+            val.name = attr
+            conds[attr] = val
+    return conds
+
+
+def locked_lists_generic(store, suffix=None):
+    """Every list-like instance attribute whose name says it holds locked identifiers (plain lists or
+    multiprocessing manager proxies)."""
+    out = {}
+    for attr, val in vars(store).items():
+        if "locked" not in attr or (suffix and not attr.endswith(suffix)):
+            continue
+        if isinstance(val, (str, bytes, dict)) or not (hasattr(val, "__iter__") or
+                                                       (hasattr(val, "__getitem__") and hasattr(val, "__len__"))):
+            continue
+        try:
+            out[attr] = list(val)
+        except Exception:  # noqa
+            continue
+    return out
+
+
+def store_locks(store, suffix=None):
+    """Instance attributes that are plain locks (acquire/release, no wait)."""
+    out = {}
+    for attr, val in vars(store).items():
+        if suffix and not attr.endswith(suffix):
+            continue
+        if hasattr(val, "acquire") and hasattr(val, "release") and not hasattr(val, "wait") and not hasattr(val, "notify"):
+            out[attr] = val
+    return out
+
 
 SYNC_ATTRS = {
     # condition attr -> (lock attr its Condition was built on, locked-list attr)
